@@ -492,6 +492,20 @@ def conditions(tier, seed):
                             'param': {'topo': topo, 'targets': nodes, 'first_target': t},
                             'bounds': 'topology %s: per store nothing/D0; any operation on node %d then any operation '
                                       'on any node' % (topo, t)})
+    if quick:
+        # the deep linked chain (a LinkedContext over three ancestors) is kept small in the quick tier: variable writes and
+        # the first function shards only
+        keep, nf = [], 0
+        for c in out:
+            if '[deep-linked' in c['name']:
+                if c['name'].startswith('vars[deep-linked,set'):
+                    keep.append(c)
+                elif c['name'].startswith('funcs[deep-linked') and nf < 3:
+                    keep.append(c)
+                    nf += 1
+            else:
+                keep.append(c)
+        out = keep
     return out
 
 
